@@ -78,10 +78,12 @@ CHECKS["C09"] = dict(
           "INCLUDING a generated model for every aliased call pattern, and about hand models of inv/div/mulScalar/batchInverse: "
           "every add/sub/neg/mul/square overload (extension, base element, integer, pointer forms) returns the exact coefficients "
           "in F_p[x]/(x^3-x-1) for all operand representations, with outputs aliasing inputs; isOne holds exactly for (1,0,0) "
-          "(was false on the pinned tree: D3, found with a replay and fixed); div and mulScalar(string) exact; inv: exact "
-          "characterisation of refusal (t(a)=0) and a·inv(a)=1 whenever it returns. PARTIAL: 'a≠0 ⇒ t(a)≠0' (irreducibility of "
-          "x^3-x-1 over F_p) and the batchInverse induction are not proved; both are covered by the correspondence run "
-          "(inv on non-zero elements, batchInverse lengths 1..66, every output checked against the spec)."),
+          "(was false on the pinned tree: D3, found with a replay and fixed); div and mulScalar(string) exact; x^3-x-1 has no root in "
+          "F_p (x^p in K3 by kernel evaluation, Fermat, an explicit Bezout certificate) hence t(a)=0 iff a=0; inv returns for every "
+          "non-zero element (any representation) an r with r·a = 1 and refuses exactly the zero class; batchInverse (prefix products, "
+          "one inversion, backward sweep; hand model) returns element-wise inverses for every array length >= 1, refuses exactly when "
+          "an element is zero or the array is empty, and agrees with inv. Tie of the hand-modelled parts: correspondence (inv on "
+          "non-zero elements, batchInverse lengths 1..66, every output checked against the spec)."),
     technique="Lean 4 proof (ZMod p, ring) over a translated model incl. aliasing variants + correspondence for the hand-modelled parts",
     design="§4 C09", note=NOTE_BASE)
 
@@ -217,6 +219,28 @@ CHECKS["C08"] = dict(
 
 NOT_YET = {
 }
+
+
+CHECKS["C16"] = dict(
+    text=("Machine-checked theorems: (1) Props/C16Gen*.lean, GENERATED on every run — one theorem for each of the 156 add/sub/mul "
+          "_batch/_avx/_avx512 overloads of goldilocks_cubic_extension.hpp and the 3 planar<->interleaved copies: the STATEMENT is "
+          "derived from the routine name (operation, operand shape 13/31/33, 'c' = broadcast constant, family) and the parameter "
+          "TYPES and NAMES only (tools/extspec.py); it says that the body translated from the current source writes, for element k, "
+          "three words whose values in ZMod p are the coefficients of the K3 = F_p[x]/(x^3-x-1) sum/difference/product of the k-th "
+          "designated operands (array operands at exactly the positions the stride / index-array parameters designate, 64-bit index "
+          "arithmetic; registers lane k), as sequential writes at exactly the designated output positions (array outputs), planar "
+          "registers 0..2 with the rest of the register array untouched (Element_avx outputs) or three register references; valid "
+          "for EVERY stride / index array (0, colliding, wrapping) and every operand representation; the three challenge products "
+          "under the hypothesis that the extra operand holds b0+b1, b0+b2, b1+b2; (2) Props/C16.lean — frame, order-agnostic and "
+          "exact value of every designated position, closed forms for the interleaved and the non-overlapping strided layout, the "
+          "link to the scalar Goldilocks3 add/sub/mul of C09 (all operand forms), the copies. The READ footprint is not a theorem "
+          "(total model): it is established by the correspondence run. Tie: bodies regenerated from the source; correspondence of "
+          "every overload (implementation vs generated model vs signature-derived K3 oracle) with exact-extent arrays against "
+          "PROT_NONE guard pages, strides 0,1,2,3,5,17,1000+, index arrays, and product operands directed at the reduction "
+          "boundaries incl. the top non-canonical window [2^64-2^31, 2^64)."),
+    technique="Lean 4 proof (ZMod p, ring), statements generated from C++ signatures and bodies translated from the source (clang AST) + CPU correspondence",
+    design="DESIGN.C16.md", note=NOTE_BASE + " Distinct pointer / register-array arguments are modelled as disjoint (argument aliasing not covered). "
+                                        "Operand designation conventions are written down in tools/extspec.py and validated against the implementation by the oracle run.")
 
 
 def main():
